@@ -542,8 +542,8 @@ def gen_cases(rng, tier):
         for n in [rng.choice(small) for _ in range(3 if not big else 8)] + [rng.choice([33, 40])] + ([33, 40, 70] if big else []):
             a = gen_spd_exact(rng, n); k = rng.randrange(n); a[k][k] -= a[k][k] + rng.choice([1, 2, 5])
             for tri in ("lower", "upper"):
-                # n > 32: only the variants whose diagonal blocks run the left-looking kernel are modelled blocked
-                if n <= 32 or (tri, ao) in (("lower", "r"), ("upper", "c")): cases.append(("exact", "K %s %s %d | %s" % (tri, ao, n, fl(a))))
+                # all four (triangle, storage) pairs are modelled blocked (left-looking leaf: C02BlkModel.potrf_rec, right-looking leaf: C02RlModel.potrf_rec_rl)
+                cases.append(("exact", "K %s %s %d | %s" % (tri, ao, n, fl(a))))
         for n in [rng.choice(small) for _ in range(4 if not big else 12)] + ([33, 40] if big else [rng.choice([33, 40])]):
             a = gen_float(rng, n, "spd", 10.0 ** rng.choice([0, 2, 4, 8]))
             cases.append(("float", "C %s %d | %s" % (ao, n, fl(a))))
